@@ -401,6 +401,15 @@ else:
     assert isinstance(ret, dict)
     return ret
 '''
+# the form committed in /repo (0cb7656): as above plus a tolerance for commands whose signature cannot be
+# introspected (compiled mypy): there the call itself decides, i.e. validation is only guaranteed for the
+# interpreted daemon (assumption recorded by the harness)
+RUN_COMMAND_VALIDATING_2 = RUN_COMMAND_VALIDATING.replace(
+    """        raise BadRequest(f"Invalid arguments for command '{command}': {err}") from None
+""", """        raise BadRequest(f"Invalid arguments for command '{command}': {err}") from None
+    except ValueError:
+        pass
+""")
 BADREQUEST_HANDLER = '''
 try:
     pass
@@ -511,7 +520,7 @@ def gen_shape() -> tuple[str, dict[str, bool]]:
     rc = dump(strip_doc(find_method(srv, "run_command").body))
     if rc == dump(ast.parse(RUN_COMMAND_ORIG).body):
         validating = False
-    elif rc == dump(ast.parse(RUN_COMMAND_VALIDATING).body):
+    elif rc in (dump(ast.parse(RUN_COMMAND_VALIDATING).body), dump(ast.parse(RUN_COMMAND_VALIDATING_2).body)):
         validating = True
     else:
         raise Unsupported("Server.run_command differs from both known forms")
@@ -548,9 +557,23 @@ def gen_shape() -> tuple[str, dict[str, bool]]:
 
 
 def generate() -> dict[str, str]:
-    files = {"Frame.v": gen_frame(), "ServeShape.v": gen_shape()[0]}
-    for k, v in files.items():
-        vlib.write_if_changed(os.path.join(vlib.GEN, k), v)
+    """Fail closed: a file that cannot be regenerated is REMOVED (never left over from an earlier run), so
+    that neither the proofs nor the correspondence can silently use a stale model."""
+    files: dict[str, str] = {}
+    err: Exception | None = None
+    for k, gen in (("Frame.v", gen_frame), ("ServeShape.v", lambda: gen_shape()[0])):
+        try:
+            files[k] = gen()
+            vlib.write_if_changed(os.path.join(vlib.GEN, k), files[k])
+        except Exception as e:  # noqa
+            err = err or e
+            for ext in (".v", ".vo", ".vos", ".vok", ".glob"):
+                try:
+                    os.remove(os.path.join(vlib.GEN, k[:-2] + ext))
+                except OSError:
+                    pass
+    if err is not None:
+        raise err
     return files
 
 
